@@ -3,6 +3,7 @@ From Coq Require Import ZArith Arith List Bool.
 From B2Z Require Import Model.Icf Proofs.IcfProofs Gen.GenIcfWriter Bridge.BridgeIcfWriter.
 From B2Z Require Import Gen.GenIterValues Bridge.BridgeIterValues.
 From B2Z Require Import Base.ExtZ Gen.GenSummary Bridge.BridgeSummary.
+From B2Z Require Gen.GenExplode Bridge.BridgeExplode.
 Import ListNotations.
 Open Scope nat_scope.
 
@@ -135,3 +136,10 @@ Example translated_summary_instance :
   abs (fold_left gen_update_bounds [(2, [5; -2147483648]); (3, [-7; 9; -2147483647])]%Z gen_summary0)
   = {| i_maxnum := 3; i_bounds := Some (-7, 9)%Z |}.
 Proof. vm_compute. reflexivity. Qed.
+
+(* what goes INTO the columns (the record loop of process_partition as read off the source, translator/explode2coq.py): every
+   defined fixed field gets exactly one append per record from the record attribute of the same name -- rlen from end - start,
+   not from the REF string --, every INFO / FORMAT field and GT exactly one append per record *)
+Theorem translated_record_loop : (BridgeExplode.fixed_fields_once && BridgeExplode.per_field_once && BridgeExplode.fixed_fields_typed)%bool = true.
+Proof. exact BridgeExplode.translated_record_loop_lemma. Qed.
+Print Assumptions translated_record_loop.
